@@ -118,17 +118,17 @@ func charsOf(v peval.Val, into map[rune]bool) bool {
 }
 
 type delimView struct {
-	all    map[rune]bool
-	pairs  [][2]string // (kv, field)
-	refuse map[string]map[rune]bool
+	all     map[rune]bool
+	pairs   [][2]string // (kv, field)
+	refuse  map[string]map[rune]bool
 	itemSep map[rune]bool
-	sinks  []string
+	sinks   []string
 }
 
 var encSinks = map[string][]int{
-	"strings.Join": {1},
+	"strings.Join":                    {1},
 	core.Module + "/uri.encodeObject": {0, 1},
-	"builtin append": {1},
+	"builtin append":                  {1},
 }
 
 var decSinks = map[string][]int{
